@@ -5,9 +5,13 @@
      * PrimFloat (IEEE binary64, bit-exact with numpy for + - * / sqrt, comparisons, and np.sum, whose pairwise
        summation order is reproduced by Base/PyFloat.np_sum): the instance EXECUTED in the correspondence check;
      * R (Proofs/OCP.v): the instance the theorems are about.
-   The network (function.response / function.sensitivity) is a parameter: obs it x = (objective value,
-   gradient) observed at iteration `it` for design x.  Loops are fuelled recursions; running out of fuel is
-   an explicit error value that the theorems exclude. *)
+     * Python numbers (PyOOps: ints stay ints the way CPython keeps them): the instance executed against the
+       implementation when integer keyword values (the defaults l1init = 0, l2init = 100000) are involved.
+   The network (function.response / function.sensitivity) is a parameter: obs it states = (objective value,
+   sensitivities) observed at iteration `it` for the states held by the variable signals.  The three loops (outer
+   iteration, bracket growing, bisection) are fuelled recursions; running out of fuel is an explicit result that
+   the theorems exclude (and that the correspondence maps to "the implementation does not return").
+   Code modelled: /repo at fix commits ebed191 + bd6675c (finding F19). *)
 From Coq Require Import ZArith List Bool.
 From Pymoto Require Import Model.Concat.
 Import ListNotations.
@@ -194,9 +198,23 @@ Definition FloatOOps : OOps float :=
      oopp := PrimFloat.opp; osqrt := PrimFloat.sqrt; oabs := PrimFloat.abs; oltb := PrimFloat.ltb; oleb := PrimFloat.leb;
      osuml := np_sum |}.
 
+(* ---- the instance executed in the correspondence check: Python numbers.  Arrays hold floats; the multiplier
+   bounds l1, l2 are Python ints as long as they come from the integer defaults l1init = 0, l2init = 100000 and
+   from `l2 *= 10` (exact, unbounded), and are converted / compared the way CPython does. *)
+Definition PyOOps : OOps pynum :=
+  {| o0 := PFlt PrimFloat.zero; ohalf := PFlt 0x1p-1%float; oten := PInt 10; ohuge := PFlt 0x1.d6329f1c35ca5p+132%float;
+     oadd := py_add; osub := py_sub; omul := py_mul; odiv := py_div;
+     oopp := py_opp; osqrt := py_sqrt; oabs := py_abs; oltb := py_ltb; oleb := py_leb;
+     osuml := fun l => PFlt (np_sum (map py_float l)) |}.
+
 (* the keyword defaults of minimize_oc (tolx=1e-4, tolf=1e-4, maxit=100, xmin=0.0, xmax=1.0, move=0.2, l1init=0,
-   l2init=100000, l1l2tol=1e-4) and the literal 1e-15 of the warning test, as binary64 values *)
-Definition default_params : @oc_params float :=
+   l2init=100000, l1l2tol=1e-4) and the literal 1e-15 of the warning test; ints stay ints *)
+Definition default_params : @oc_params pynum :=
+  mkParams (PFlt 0x1.a36e2eb1c432dp-14%float) (PFlt 0x1.a36e2eb1c432dp-14%float) 100
+           (BScalar (PFlt 0%float)) (BScalar (PFlt 1%float)) (PFlt 0x1.999999999999ap-3%float)
+           (PInt 0) (PInt 100000) (PFlt 0x1.a36e2eb1c432dp-14%float) (PFlt 0x1.203af9ee75616p-50%float).
+(* the same defaults for the pure-float instance (used by the executed example in Props/C17.v) *)
+Definition default_params_float : @oc_params float :=
   mkParams 0x1.a36e2eb1c432dp-14%float 0x1.a36e2eb1c432dp-14%float 100
            (BScalar 0%float) (BScalar 1%float) 0x1.999999999999ap-3%float
            0%float 100000%float 0x1.a36e2eb1c432dp-14%float 0x1.203af9ee75616p-50%float.
